@@ -8,8 +8,8 @@
   `deliver r names` (any non-empty set of this rank's posted receives whose message has been
   sent — what `Waitsome` may report — and only when no part of `r` is ready, as in the real
   loop).  All theorems quantify over EVERY partition satisfying `WFexec` (the part of the
-  `DistributedGraphPart` contract the executor relies on; implied by C09's `WF` together with
-  "no part reads an overall output", `wf_implies_wfexec`) (any number of ranks, parts,
+  `DistributedGraphPart` contract the executor relies on; implied by C09's `WF`,
+  `wf_implies_wfexec`) (any number of ranks, parts,
   messages), EVERY interleaving of ranks and EVERY `Waitsome` outcome.  The tie to the real
   code (real traces are `Step` paths with equal enabled sets; real partitions pass `checkWF`)
   is the correspondence check in harness/props/c08.py.
@@ -49,7 +49,8 @@ theorem execution_bounded {P : Partition} {s s' : GState V} {n : Nat} (h : Path 
 
 /-- **No value is read before it is produced or after it has been released.**  In every
     reachable state, a part the executor may run finds all its input names in the context
-    (the model releases a name when its reference count drops to zero, as execute.py does). -/
+    (the model releases a name when its reference count drops to zero unless it is an overall
+    output name, as execute.py does). -/
 theorem inputs_present {P : Partition} (hwf : WFexec P) {s : GState V}
     (hreach : Reachable sem P s) {r : Nat} {p : Part} (hr : r < P.length)
     (hp : p ∈ P.parts r) (hrdy : p.ready (s.rk r)) :
@@ -60,7 +61,10 @@ theorem inputs_present {P : Partition} (hwf : WFexec P) {s : GState V}
     partition's equation system (user inputs = supplied data; an output = its part's program
     applied to the solution restricted to the part's inputs; a received name = the sent name
     of the matching send), every terminal reachable state holds `ref` for every overall
-    output of every rank. -/
+    output of every rank.  (All names of a rank live in one namespace, as in execute.py's
+    `context`: if an output carries the name of a user input with a different value, the
+    system has no solution and the theorem says nothing — the check compares such programs
+    with the global reference by execution.) -/
 theorem faithful {P : Partition} (hwf : WFexec P) {ref : Nat → Name → V}
     (hsol : IsSolution sem P ref) {s : GState V} (hreach : Reachable sem P s)
     (hterm : Terminal P s) (r : Nat) (hr : r < P.length) :
@@ -71,9 +75,9 @@ theorem faithful {P : Partition} (hwf : WFexec P) {ref : Nat → Name → V}
 theorem checkWFexec_sound (P : Partition) (h : checkWFexec P = true) : WFexec P :=
   checkWFexec_sound_lemma P h
 
-/-- the full contract of C09 plus "no part reads an overall output" implies `WFexec` -/
-theorem wf_implies_wfexec {P : Partition} (h : WF P) (hnr : OutputsNotRead P) : WFexec P :=
-  wfexec_of_wf h hnr
+/-- the full contract of C09 implies `WFexec` -/
+theorem wf_implies_wfexec {P : Partition} (h : WF P) : WFexec P :=
+  wfexec_of_wf h
 
 /-! ## non-vacuity -/
 
@@ -97,9 +101,8 @@ def exRef : Nat → Name → Nat := fun r n =>
 example : checkWF exP = true := by decide +kernel
 theorem exP_wf : WFexec exP := checkWFexec_sound exP (by decide +kernel)
 
-/-- the hypotheses of `wf_implies_wfexec` are satisfiable -/
-example : WF exP ∧ OutputsNotRead exP :=
-  ⟨checkWF_sound_lemma exP (by decide +kernel), by unfold OutputsNotRead; decide +kernel⟩
+/-- the hypothesis of `wf_implies_wfexec` is satisfiable -/
+example : WF exP := checkWF_sound_lemma exP (by decide +kernel)
 
 /-- the hypotheses of `progress` hold in the initial state (which is not terminal) -/
 example : ¬ Terminal exP (init exSem exP) := by
